@@ -11,7 +11,8 @@ from ..fa import FA
 from ..loader import AnalysisError
 from .valeq import check_typed_identity, check_json_bytes, check_enum_distinct
 from .c16 import sibling_reference_sites
-from .ladders import extract_ladder, check_ladder_order, repo_subclass_pairs, handler_ladder
+from .ladders import (extract_ladder, check_ladder_order, repo_subclass_pairs, handler_ladder, dispatch_model, _bound_value, _literal_seq,
+                      table_entries, _Unsupported)
 from . import partition_model as PM
 
 RL = "runner_local.memento_run_local"
@@ -594,96 +595,6 @@ MAY_RAISE = {
 }
 
 
-def _bound_value(fa, e, at):
-    """The expression a name stands for, when that is evident: a local with one reaching plain assignment, a module-level
-    name of this module or of the repository module it is imported from, a class-level constant read as `self.X` / `cls.X` /
-    `Class.X` in a method of that class (and never assigned through an instance).  None otherwise."""
-    if isinstance(e, ast.Name):
-        if fa.df.is_local(e.id):
-            ds = fa.df.reaching(at, e.id)
-            if len(ds) == 1 and ds[0].kind == "assign" and ds[0].value is not None:
-                return ds[0].value
-            return None
-        mod = fa.fi.module
-        if e.id in mod.assigns:
-            return mod.assigns[e.id]
-        origin = mod.imports.get(e.id)
-        if origin and ":" in origin:
-            m_, n_ = origin.split(":", 1)
-            other = fa.ck.repo.modules.get(m_.lstrip(".").split(".")[-1])
-            if other is not None and n_ in other.assigns:
-                return other.assigns[n_]
-        return None
-    if isinstance(e, ast.Attribute) and isinstance(e.value, ast.Name):
-        k = fa.fi.cls
-        while k is not None:
-            if e.value.id in ("self", "cls", k.name):
-                for st in k.node.body:
-                    for (tg, v) in ([(t, st.value) for t in st.targets] if isinstance(st, ast.Assign) else
-                                    [(st.target, st.value)] if isinstance(st, ast.AnnAssign) and st.value is not None else []):
-                        if isinstance(tg, ast.Name) and tg.id == e.attr:
-                            stores = [n for m in k.methods.values() for n in ast.walk(m.node)
-                                      if isinstance(n, ast.Attribute) and n.attr == e.attr and isinstance(n.ctx, (ast.Store, ast.Del))]
-                            return None if stores else v
-            k = getattr(k, "outer", None)
-    return None
-
-
-def _literal_seq(fa, it, at, _depth=0):
-    """Elements of a literal tuple / list / set (possibly bound to a local, module-level or class-level name), else None."""
-    if isinstance(it, (ast.Tuple, ast.List, ast.Set)):
-        return list(it.elts)
-    if _depth > 4:
-        return None
-    if isinstance(it, ast.Call) and A.call_dotted(it) in ("tuple", "list", "sorted", "frozenset", "set") and len(it.args) == 1 and not it.keywords:
-        return _literal_seq(fa, it.args[0], at, _depth + 1)
-    v = _bound_value(fa, it, at)
-    if v is not None:
-        if isinstance(it, ast.Name) and fa.df.is_local(it.id):
-            at = fa.df.reaching(at, it.id)[0].node
-        return _literal_seq(fa, v, at, _depth + 1)
-    return None
-
-
-def table_entries(fa, expr, at, _depth=0):
-    """(key, value) pairs of a dictionary-building expression: a literal (with ** parts), a comprehension over a
-    literal sequence, dict.fromkeys, `a | b`, a local / module-level name bound to one of these.  None if not understood."""
-    if _depth > 6 or expr is None:
-        return None
-    if isinstance(expr, ast.Dict):
-        out = []
-        for k, v in zip(expr.keys, expr.values):
-            if k is None:
-                sub = table_entries(fa, v, at, _depth + 1)
-                if sub is None:
-                    return None
-                out += sub
-            else:
-                out.append((k, v))
-        return out
-    if isinstance(expr, ast.DictComp) and len(expr.generators) == 1 and not expr.generators[0].ifs:
-        g = expr.generators[0]
-        seq = _literal_seq(fa, g.iter, at)
-        if seq is not None and isinstance(g.target, ast.Name) and isinstance(expr.key, ast.Name) and expr.key.id == g.target.id \
-                and g.target.id not in A.names_in(expr.value):
-            return [(e, expr.value) for e in seq]
-        return None
-    if isinstance(expr, ast.Call) and A.call_dotted(expr) == "dict.fromkeys" and len(expr.args) == 2:
-        seq = _literal_seq(fa, expr.args[0], at)
-        return [(e, expr.args[1]) for e in seq] if seq is not None else None
-    if isinstance(expr, ast.Call) and A.call_dotted(expr) == "dict" and len(expr.args) == 1 and not expr.keywords:
-        return table_entries(fa, expr.args[0], at, _depth + 1)
-    if isinstance(expr, ast.BinOp) and isinstance(expr.op, ast.BitOr):
-        l, r = table_entries(fa, expr.left, at, _depth + 1), table_entries(fa, expr.right, at, _depth + 1)
-        return None if l is None or r is None else l + r
-    v = _bound_value(fa, expr, at)
-    if v is not None:
-        if isinstance(expr, ast.Name) and fa.df.is_local(expr.id):
-            at = fa.df.reaching(at, expr.id)[0].node
-        return table_entries(fa, v, at, _depth + 1)
-    return None
-
-
 def strategy_table(fa):
     """{ResultType member: strategy class name} as DefaultCodec.__init__ builds it, however the dictionary is
     spelled: literals, comprehensions, `d[k] = v` (also in a loop over a literal sequence), `d.update(...)`."""
@@ -722,6 +633,18 @@ def check_exhaustive(ck, R):
             d = A.dotted(v)
             if d and d.startswith("ResultType."):
                 returned.add(d.split(".")[1])
+    # ... and what the classifier answers for a value of each class it names (covers dispatch written as `next(...)` over a
+    # table, a look-up keyed by the value's class, ...)
+    try:
+        D = dispatch_model(ck, fo, repo_subclass_pairs(ck))
+        if D is not None:
+            worlds = [(k, kind, "actual") for k in D.named() + ["None", "<no class>"] for kind in ("exact", "sub")]
+            for w in worlds:
+                for (kind, val) in D.outcome(w):
+                    if kind == "return" and val.startswith("ResultType.") and val.count(".") == 1:
+                        returned.add(val.split(".")[1])
+    except _Unsupported:
+        pass
     rt = ck.repo.cls("metadata.ResultType")
     members = [t.id for st in rt.node.body if isinstance(st, ast.Assign) for t in st.targets if isinstance(t, ast.Name)]
     dc = FA(ck, "storage_base.DefaultCodec.__init__")
@@ -754,7 +677,8 @@ def check_order(ck, R):
                         ("serialization.MementoCodec.encode_arg", "wire-encode")):
         fa = FA(ck, qual)
         lad = extract_ladder(fa.node)
-        ck.need(len(lad) >= 5, "%s: isinstance ladder not recognised" % qual)
+        D = dispatch_model(ck, fa, pairs)
+        ck.need(len(lad) >= 5 or (D is not None and len(D.named()) >= 5), "%s: type dispatch not recognised" % qual)
         n += check_ladder_order(ck, R, fa, lad, pairs, label)
     rl = FA(ck, RL)
     body = rl.one(rl.calls("_filter_call"), "_filter_call call")
@@ -766,10 +690,10 @@ def check_order(ck, R):
 
 
 def classifies_exception(ck):
-    """Does ResultType.from_object answer ResultType.exception for every MementoException?  Decided on the path classes of
-    from_object, whatever its shape (early returns, elif chain assigning a result variable, ...): every way out (return or
-    raise) has first tested `isinstance(<obj>, MementoException)`; the ways out on which the test held return
-    ResultType.exception; no raise lies on them."""
+    """Does ResultType.from_object answer ResultType.exception for every MementoException?  Decided on what from_object
+    answers for a value whose class is MementoException or one of its subclasses (abstract run of its body, `Dispatch`),
+    whatever its shape: early returns, an elif chain assigning a result variable, a first-match table, an exact-class
+    look-up in front.  Every way out for such a value returns ResultType.exception."""
     memo = ck.__dict__.setdefault("_c02_classifies_exception", {})
     if "v" in memo:
         return memo["v"]
@@ -777,35 +701,15 @@ def classifies_exception(ck):
     fo = ck.repo.try_func("metadata.ResultType.from_object")
     if fo is None or not fo.params:
         return False
-    obj = fo.params[0] if fo.is_static else (fo.params + [None])[1]
-
-    def is_me(e):
-        it = A.isinstance_types(e)
-        return bool(it) and it[0] == obj and any(t.split(".")[-1] == "MementoException" for t in it[1])
-
-    def polarity(lits):
-        return {p for (tx, p) in lits if not tx.startswith("@") and is_me(_parse(tx))}
-
     try:
-        fa = FA(ck, fo)
-        S = Sym(fa, watch=lambda tx, e: is_me(e))
-        rets = S.return_states()
-        ok = bool(rets)
-        seen = False
-        for (_r, _env, lits, v) in rets:
-            pol = polarity(lits)
-            if not pol:
-                ok = False
-            if True in pol:
-                seen = True
-                ok = ok and v == "ResultType.exception"
-        for r in fa.stmts(ast.Raise):
-            for (_env, lits) in S.at(r):
-                pol = polarity(lits)
-                if not pol or True in pol:
-                    ok = False
-        memo["v"] = bool(ok and seen)
-    except AnalysisError:
+        pairs = repo_subclass_pairs(ck)
+        D = dispatch_model(ck, FA(ck, fo), pairs)
+        if D is None or "MementoException" not in D.named():
+            return False
+        classes = ["MementoException"] + sorted({sub for (sub, sup) in pairs if sup == "MementoException"})
+        want = frozenset({("return", "ResultType.exception")})
+        memo["v"] = all(D.outcome((k, kind, "actual")) == want for k in classes for kind in ("exact", "sub"))
+    except (AnalysisError, _Unsupported):
         memo["v"] = False
     return memo["v"]
 
